@@ -436,7 +436,11 @@ func (ego *list) Equals(another List) bool {
 }
 
 func (ego *list) Concat(another List) List {
-	newList := &list{val: append(ego.val, another.getVal().(*list).val...)}
+	other := another.getVal().(*list).val
+	val := make([]field, len(ego.val)+len(other))
+	copy(val, ego.val)
+	copy(val[len(ego.val):], other)
+	newList := &list{val: val}
 	newList.Init(newList)
 	return newList
 }
